@@ -23,18 +23,145 @@ type parseSite struct {
 	style string // "err", "ok", "nil"
 }
 
-// parserCalls: request-parsing calls in handler code.
-func parserCalls(P *core.Program) []parseSite {
-	var out []parseSite
-	for _, fn := range P.SrcFuncs(core.PkgGcsemu) {
-		root := core.Root(fn)
-		hasW := false
-		for _, p := range root.Params {
-			if isResponseWriter(p.Type()) {
-				hasW = true
+// baseParser classifies a call as one of the request-parsing primitives.
+func baseParser(ci *core.CallInfo) (what, style string, ok bool) {
+	name := ""
+	if ci.Static != nil && ci.Static.Pkg != nil {
+		name = ci.Static.Pkg.Pkg.Path() + "." + core.FuncName(ci.Static)
+	}
+	switch name {
+	case core.PkgGcsemu + ".ParseGcsUrl":
+		return "ParseGcsUrl", "ok", true
+	case "net/http.(*Request).ParseForm":
+		return "ParseForm", "err", true
+	case core.PkgGcsemu + ".parseConds":
+		return "parseConds", "err", true
+	case core.PkgGcsutil + ".DecodePageToken":
+		return "DecodePageToken", "err", true
+	case "strconv.Atoi", "strconv.ParseInt":
+		return "strconv." + ci.Static.Name(), "err", true
+	case "encoding/json.(*Decoder).Decode":
+		return "json.Decode", "err", true
+	case "io.ReadAll":
+		return "io.ReadAll", "err", true
+	case core.PkgGcsemu + ".readMultipartInsert":
+		return "readMultipartInsert", "err", true
+	case core.PkgGcsemu + ".parseByteRange":
+		return "parseByteRange", "nil", true
+	case "net/http.(*Request).MultipartReader":
+		return "MultipartReader", "err", true
+	case "mime/multipart.(*Reader).NextPart":
+		return "NextPart", "err", true
+	case "net/http.ReadRequest":
+		return "http.ReadRequest", "err", true
+	}
+	return "", "", false
+}
+
+func hasWriterParam(fn *ssa.Function) bool {
+	for _, p := range core.Root(fn).Params {
+		if isResponseWriter(p.Type()) {
+			return true
+		}
+	}
+	return false
+}
+
+// failureStyle: how a parsing helper reports failure through its last result
+// ("err": non-nil error, "str": non-empty problem description), or "".
+func failureStyle(fn *ssa.Function) string {
+	res := fn.Signature.Results()
+	if res.Len() == 0 {
+		return ""
+	}
+	lt := res.At(res.Len() - 1).Type()
+	switch {
+	case types.Identical(lt, types.Universe.Lookup("error").Type()):
+		return "err"
+	case res.Len() >= 2 && isStringType(lt):
+		return "str"
+	}
+	return ""
+}
+
+// errorReturnUnder: some return dominated by b reports failure (a non-nil
+// error, or a non-empty problem description for the "str" style).
+func errorReturnUnder(b *ssa.BasicBlock) bool {
+	fn := b.Parent()
+	for _, r := range returnsIn(fn) {
+		if r.Block() != b && !b.Dominates(r.Block()) {
+			continue
+		}
+		if ie, _ := isErrorReturn(r); ie {
+			return true
+		}
+		if failureStyle(fn) == "str" {
+			for _, v := range returnValues(r.Results[len(r.Results)-1]) {
+				v = core.Resolve(v)
+				if sv, ok := core.ConstString(v); ok && sv != "" {
+					return true
+				}
+				if _, isCall := v.(*ssa.Call); isCall {
+					return true
+				}
 			}
 		}
-		if !hasW || fn.Parent() != nil {
+	}
+	return false
+}
+
+// derivedParsers: helpers without a ResponseWriter that wrap a request-parsing
+// call and turn its failure into an error result ("parse, return (value, err),
+// let the handler answer").  A call to such a helper is itself a parse site.
+func derivedParsers(P *core.Program, n *nilAnalysis) map[*ssa.Function]string {
+	derived := map[*ssa.Function]string{}
+	// only helpers of the HTTP entry points (reached by static calls; the stores sit behind an interface)
+	inHandlerScope := map[*ssa.Function]bool{}
+	for _, fn := range P.SrcFuncs(core.PkgGcsemu) {
+		if fn.Parent() == nil && hasWriterParam(fn) {
+			for _, f := range P.Scope(fn, nil) {
+				inHandlerScope[f] = true
+			}
+		}
+	}
+	for changed := true; changed; {
+		changed = false
+		for _, fn := range P.SrcFuncs(core.PkgGcsemu) {
+			if fn.Parent() != nil || derived[fn] != "" || hasWriterParam(fn) || failureStyle(fn) == "" || !inHandlerScope[fn] {
+				continue
+			}
+			if _, _, isBase := baseParser(&core.CallInfo{Static: fn}); isBase {
+				continue
+			}
+			for _, ci := range core.AllCalls(fn) {
+				call, ok := ci.Instr.(*ssa.Call)
+				if !ok {
+					continue
+				}
+				what, style, isP := baseParser(ci)
+				if !isP && ci.Static != nil && derived[ci.Static] != "" {
+					what, style, isP = core.FuncName(ci.Static), derived[ci.Static], true
+				}
+				if !isP {
+					continue
+				}
+				if fb, _ := failureEdge(n, parseSite{fn, call, what, style}); fb != nil && errorReturnUnder(fb) {
+					derived[fn] = failureStyle(fn)
+					changed = true
+					break
+				}
+			}
+		}
+	}
+	return derived
+}
+
+// parserCalls: request-parsing calls in handler code and in the parsing helpers it uses.
+func parserCalls(P *core.Program, n *nilAnalysis) []parseSite {
+	var out []parseSite
+	derived := derivedParsers(P, n)
+	for _, fn := range P.SrcFuncs(core.PkgGcsemu) {
+		if fn.Parent() != nil || !(hasWriterParam(fn) || derived[fn] != "") {
 			continue
 		}
 		for _, ci := range core.AllCalls(fn) {
@@ -42,35 +169,10 @@ func parserCalls(P *core.Program) []parseSite {
 			if !ok {
 				continue
 			}
-			name := ""
-			if ci.Static != nil && ci.Static.Pkg != nil {
-				name = ci.Static.Pkg.Pkg.Path() + "." + core.FuncName(ci.Static)
-			}
-			switch name {
-			case core.PkgGcsemu + ".ParseGcsUrl":
-				out = append(out, parseSite{fn, call, "ParseGcsUrl", "ok"})
-			case "net/http.(*Request).ParseForm":
-				out = append(out, parseSite{fn, call, "ParseForm", "err"})
-			case core.PkgGcsemu + ".parseConds":
-				out = append(out, parseSite{fn, call, "parseConds", "err"})
-			case core.PkgGcsutil + ".DecodePageToken":
-				out = append(out, parseSite{fn, call, "DecodePageToken", "err"})
-			case "strconv.Atoi", "strconv.ParseInt":
-				out = append(out, parseSite{fn, call, "strconv." + ci.Static.Name(), "err"})
-			case "encoding/json.(*Decoder).Decode":
-				out = append(out, parseSite{fn, call, "json.Decode", "err"})
-			case "io.ReadAll":
-				out = append(out, parseSite{fn, call, "io.ReadAll", "err"})
-			case core.PkgGcsemu + ".readMultipartInsert":
-				out = append(out, parseSite{fn, call, "readMultipartInsert", "err"})
-			case core.PkgGcsemu + ".parseByteRange":
-				out = append(out, parseSite{fn, call, "parseByteRange", "nil"})
-			case "net/http.(*Request).MultipartReader":
-				out = append(out, parseSite{fn, call, "MultipartReader", "err"})
-			case "mime/multipart.(*Reader).NextPart":
-				out = append(out, parseSite{fn, call, "NextPart", "err"})
-			case "net/http.ReadRequest":
-				out = append(out, parseSite{fn, call, "http.ReadRequest", "err"})
+			if what, style, isP := baseParser(ci); isP {
+				out = append(out, parseSite{fn, call, what, style})
+			} else if ci.Static != nil && derived[ci.Static] != "" {
+				out = append(out, parseSite{fn, call, core.FuncName(ci.Static), derived[ci.Static]})
 			}
 		}
 	}
@@ -113,6 +215,30 @@ func failureEdge(n *nilAnalysis, s parseSite) (*ssa.BasicBlock, string) {
 				continue
 			}
 			failIdx := 0
+			if bin.Op == token.EQL {
+				failIdx = 1
+			}
+			if neg {
+				failIdx = 1 - failIdx
+			}
+			return b.Succs[failIdx], ""
+		case "str":
+			bin, ok := cond.(*ssa.BinOp)
+			if !ok || (bin.Op != token.NEQ && bin.Op != token.EQL) || !isTuple {
+				continue
+			}
+			var subj ssa.Value
+			if sv, isS := core.ConstString(bin.Y); isS && sv == "" {
+				subj = bin.X
+			} else if sv, isS := core.ConstString(bin.X); isS && sv == "" {
+				subj = bin.Y
+			} else {
+				continue
+			}
+			if ex, ok := n.resolveAt(subj).(*ssa.Extract); !ok || ex.Tuple != ssa.Value(s.call) || ex.Index != tup.Len()-1 {
+				continue
+			}
+			failIdx := 0 // problem != ""
 			if bin.Op == token.EQL {
 				failIdx = 1
 			}
@@ -185,7 +311,7 @@ func R17() Rule {
 	return Rule{Name: "R17", Run: func(c *core.Ctx) {
 		P := c.P
 		n := nilness(P)
-		sites := parserCalls(P)
+		sites := parserCalls(P, n)
 		cnt := map[string]int{}
 		for _, s := range sites {
 			fname := core.FuncName(s.fn)
@@ -212,6 +338,9 @@ func R17() Rule {
 			}
 			code, pos, found := firstGapiErrorCode(fb)
 			switch {
+			case !hasWriterParam(s.fn):
+				// a parsing helper: the failure must come back to the handler as an error
+				c.Check(errorReturnUnder(fb), "R17", construct, s.call.Pos(), "failure is returned to the caller as an error", fmt.Sprintf("the failure of %s is swallowed by the helper %s: the handler continues with malformed input", s.what, fname))
 			case !found:
 				c.Bad("R17", construct, s.call.Pos(), "the failure branch of %s does not answer with an error response", s.what)
 			case code == -1:
@@ -231,47 +360,70 @@ func R17() Rule {
 			{"(*GcsEmu).handleGcsListBucket", "maxResults-below-one", "maxResults"},
 			{"(*GcsEmu).handleGcsNewObjectResume", "unknown-upload-id", "id"},
 		} {
-			fn := P.MustFunc(core.PkgGcsemu, chk.fn)
 			ok := false
-			for _, b := range fn.Blocks {
-				ifi, isIf := b.Instrs[len(b.Instrs)-1].(*ssa.If)
-				if !isIf {
+			var at token.Pos
+			// the test may live in the named handler, in a handler it was split into, or in a parsing helper
+			for _, fn := range P.SrcFuncs(core.PkgGcsemu) {
+				if fn.Parent() != nil {
 					continue
 				}
-				bin, isBin := ifi.Cond.(*ssa.BinOp)
-				if !isBin {
-					continue
-				}
-				var failSucc *ssa.BasicBlock
-				switch chk.what {
-				case "missing-object-name", "missing-content-range":
-					if s, isS := core.ConstString(bin.Y); isS && s == "" && bin.Op == token.EQL {
-						if call, isCall := core.Resolve(bin.X).(*ssa.Call); isCall && len(call.Call.Args) >= 2 {
-							if k, isK := core.ConstString(call.Call.Args[len(call.Call.Args)-1]); isK && k == chk.needle {
+				for _, b := range fn.Blocks {
+					ifi, isIf := b.Instrs[len(b.Instrs)-1].(*ssa.If)
+					if !isIf {
+						continue
+					}
+					bin, isBin := ifi.Cond.(*ssa.BinOp)
+					if !isBin {
+						continue
+					}
+					var failSucc *ssa.BasicBlock
+					switch chk.what {
+					case "missing-object-name", "missing-content-range":
+						if s, isS := core.ConstString(bin.Y); isS && s == "" && bin.Op == token.EQL {
+							// the tested value is (a helper parameter bound to) a Get("<needle>") of the request
+							if P.AllOrigins(bin.X, nil, func(v ssa.Value) bool {
+								call, isCall := v.(*ssa.Call)
+								if !isCall || len(call.Call.Args) < 2 {
+									return false
+								}
+								k, isK := core.ConstString(call.Call.Args[len(call.Call.Args)-1])
+								return isK && k == chk.needle
+							}) {
 								failSucc = b.Succs[0]
 							}
 						}
-					}
-				case "maxResults-below-one":
-					if k, isK := core.ConstInt(bin.Y); isK && k == 1 && bin.Op == token.LSS {
-						failSucc = b.Succs[0]
-					}
-				case "unknown-upload-id":
-					if core.IsNilConst(bin.Y) && bin.Op == token.EQL {
-						if ex, isEx := core.Resolve(bin.X).(*ssa.Extract); isEx && ex.Index == 0 {
-							if call, isCall := ex.Tuple.(*ssa.Call); isCall && call.Call.StaticCallee() == nil && call.Call.IsInvoke() && strings.HasPrefix(call.Call.Method.Name(), "Get") {
+					case "maxResults-below-one":
+						if k, isK := core.ConstInt(bin.Y); isK && k == 1 && bin.Op == token.LSS {
+							if strings.Contains(strings.ToLower(substKey(bin.X, nil, 0)), "atoi") {
 								failSucc = b.Succs[0]
 							}
 						}
+					case "unknown-upload-id":
+						if core.IsNilConst(bin.Y) && bin.Op == token.EQL {
+							if ex, isEx := core.Resolve(bin.X).(*ssa.Extract); isEx && ex.Index == 0 {
+								if call, isCall := ex.Tuple.(*ssa.Call); isCall && call.Call.IsInvoke() && strings.HasPrefix(call.Call.Method.Name(), "Get") && core.TypeIs(call.Call.Value.Type(), "github.com/bluele/gcache", "Cache") {
+									failSucc = b.Succs[0]
+								}
+							}
+						}
 					}
-				}
-				if failSucc != nil {
-					if code, _, found := firstGapiErrorCode(failSucc); found && code >= 400 && code < 500 {
-						ok = true
+					if failSucc == nil {
+						continue
+					}
+					at = bin.Pos()
+					if hasWriterParam(fn) {
+						if code, _, found := firstGapiErrorCode(failSucc); found && code >= 400 && code < 500 {
+							ok = true
+						}
+					} else if errorReturnUnder(failSucc) {
+						ok = true // a parsing helper: its callers are parse sites checked above
 					}
 				}
 			}
-			c.Check(ok, "R17", chk.fn+"/"+chk.what, fn.Pos(), "checked and answered with a 4xx status", "the "+chk.what+" case is not answered with a 4xx status")
+			if !at.IsValid() {
+				at = P.MustFunc(core.PkgGcsemu, "(*GcsEmu).Handler").Pos()
+			}
+			c.Check(ok, "R17", chk.fn+"/"+chk.what, at, "checked and answered with a 4xx status", "the "+chk.what+" case is not answered with a 4xx status")
 		}
 		if len(sites) < 12 {
 			c.Unknown("R17", "floor/sites", token.NoPos, "only %d request-parsing call sites found in handlers", len(sites))
@@ -671,7 +823,7 @@ func R24() Rule {
 func R29() Rule {
 	return Rule{Name: "R29", Run: func(c *core.Ctx) {
 		P := c.P
-		allowedIface := map[string]bool{"(*GcsEmu).finishUpload": true, "(*GcsEmu).finishCompose": true}
+		allowedIface := map[string]string{"(*GcsEmu).finishUpload": "the verified upload path", "(*GcsEmu).finishCompose": "the compose path"}
 		n := 0
 		for _, fn := range P.SrcFuncs(core.PkgGcsemu) {
 			for _, ci := range core.AllCalls(fn) {
@@ -679,7 +831,8 @@ func R29() Rule {
 				if isStoreCall(ci, "Add") {
 					n++
 					c.Calls++
-					c.Check(allowedIface[root], "R29", "who-may-call/Store.Add/"+root, ci.Instr.Pos(), "the verified write path", "Store.Add is called from "+root+", bypassing the MD5-verified, precondition-checked write in finishUpload / finishCompose")
+					_, allowed := tableOrHelperOf(P, core.Root(fn), allowedIface)
+					c.Check(allowed, "R29", "who-may-call/Store.Add/"+root, ci.Instr.Pos(), "the verified write path", "Store.Add is called from "+root+", bypassing the MD5-verified, precondition-checked write in finishUpload / finishCompose")
 				}
 				if ci.Static != nil && ci.Static.Name() == "Add" && ci.Static.Signature.Recv() != nil {
 					if nm := core.NamedOf(ci.Static.Signature.Recv().Type()); nm != nil && (nm.Obj().Name() == "memstore" || nm.Obj().Name() == "filestore") {
